@@ -207,6 +207,39 @@ pub fn c09(ctx: &Ctx, subj: &dyn DynSubject, ty: &Ty, rep: &mut Report) {
                 return Err(Fail::new(&format!("dropped-load-leaks-address-space:{:?}", loader), format!("5 successful {:?} loads, each dropped, grew the address space by {} KiB", loader, (vm1 - vm0) * 4)).env(env));
             }
         }
+        // ---- (b') a file whose borrowed string payload is not valid UTF-8 (a stray continuation byte): whether the
+        // loader accepts or refuses it, it must not keep memory of its own behind
+        let strs: Vec<&vmodel::format::Block> = enc.blocks.iter().filter(|b| b.borrowed && b.kind == vmodel::format::BlockKind::Str && b.len >= 2).collect();
+        if !strs.is_empty() {
+            let b = strs[ent.pick(strs.len())];
+            let mut m = bytes.clone();
+            m[b.pos + ent.pick(b.len - 1)] = 0x80;
+            write(&m)?;
+            log.classes.push("invalid-utf8-payload".into());
+            for loader in [Loader::LoadMem, Loader::LoadMmap, Loader::Mmap] {
+                if !cfg!(feature = "mmap") && matches!(loader, Loader::LoadMmap | Loader::Mmap) {
+                    continue;
+                }
+                let attempt = || {
+                    let _ = guard(|| subj.load(loader, &path, 0, Script::Direct).map(|_| ()));
+                };
+                attempt();
+                let (heap0, maps0) = (crate::alloc::live_bytes(), maps_lines_with(&path));
+                for _ in 0..reps {
+                    attempt();
+                }
+                let (heap1, maps1) = (crate::alloc::live_bytes(), maps_lines_with(&path));
+                log.extra_evals += reps as u64 + 1;
+                let env = json!({"loader": format!("{:?}", loader), "cause": "invalid UTF-8 in a string payload"});
+                if crate::alloc::enabled() && heap1 - heap0 > 0 {
+                    return Err(Fail::new(&format!("bad-utf8-load-leaks-heap:{:?}", loader), format!("{} {:?} loads of a file whose string payload holds a stray 0x80 byte, each dropped, left {} more heap bytes live", reps, loader, heap1 - heap0)).env(env));
+                }
+                if maps1 > maps0 {
+                    return Err(Fail::new(&format!("bad-utf8-load-leaks-mapping:{:?}", loader), format!("{} {:?} loads of a file whose string payload holds a stray 0x80 byte left {} file mappings behind", reps, loader, maps1 - maps0)).env(env));
+                }
+            }
+            write(&bytes)?;
+        }
         // (c) stability is observed through `Script`s that move the case and re-read it (values compared above) and
         // by `prefix_is_file` in the C08 check; here: interleave other allocations and loads between two reads
         if cfg!(epserde_verif) {
